@@ -85,11 +85,23 @@ def event (st : St) (name : String) (n : Nat) : St × String :=
   | "postCopy" =>
     if st.pushed.contains n then go [.push n] { st with pushed := st.pushed.filter (· != n) }
     else ({ st with rejected := true }, "REJECT(postCopy-without-push)")
-  | "mounted" => go [.push n] st
+  | "mounted" =>
+    -- OnMounted: the registry made the blob present without a transfer; no PreCopy was seen
+    let st := { st with pushed := st.pushed.filter (· != n) }
+    if st.s.st n == .copying then go [.push n] st
+    else if st.s.st n == .claimed then
+      go [.ready n, .push n] { st with s := { st.s with st := fupd st.s.st n .waiting } }
+    else go [.ready n, .push n] st
   | "late" =>   -- content stored, then an error
     go [.pushLate n] { st with pushed := st.pushed.filter (· != n) }
   | "fault" =>
-    if st.pushed.contains n then go [.pushLate n] { st with pushed := st.pushed.filter (· != n) }
+    if st.pushed.contains n then
+      -- content stored, then an error; on the mount path no PreCopy made the node "copying"
+      let st1 := { st with pushed := st.pushed.filter (· != n) }
+      if st.s.st n == .copying then go [.pushLate n] st1
+      else if st.s.st n == .claimed then
+        go [.ready n, .pushLate n] { st1 with s := { st1.s with st := fupd st1.s.st n .waiting } }
+      else go [.ready n, .pushLate n] st1
     else if st.s.st n == .idle then go [.claim n, .fail n] st
     else go [.fail n] st
   | _ => (st, "bad-event")
@@ -168,6 +180,7 @@ def step (st : St) (toks : List String) : Option (St × String × String) :=
   | "xpresent" :: rest => do   -- after the fault-free retry everything reachable is there
       let all ← kv rest "all"
       some (st, all, all)
+  | "cberr" :: _ => some (st, "that-error", "that-error")   -- C04: a callback's error aborts the copy with that error
   | "gauge" :: _ => some (st, "ok", "ok")     -- runtime monitor (C04): in-flight ≤ Concurrency
   | ["once"] => some (st, "ok", "ok")         -- runtime monitor (C04): one fetch / one push per node
   | ["closed"] => some (st, if closedNow st then "1" else "0", "1")
